@@ -37,7 +37,7 @@ fn run<S: Src, const N: usize, const K: usize>(s: &mut S) {
     let mut shape = [0u8; N]; let mut lit = [0u32; N]; let mut has_un = [false; N];
     for i in 0..N { shape[i] = s.choice(3); lit[i] = s.u32(); has_un[i] = s.bool(); }
     let mut order = [0usize; K];
-    if K <= 3 {
+    if K <= 2 {
         for i in 0..K { order[i] = s.usize(); s.assume(order[i] < K); for j in 0..i { s.assume(order[i] != order[j]); } }
     } else {
         // native probes (never run under Kani): Fisher-Yates, no rejection
@@ -132,7 +132,9 @@ harness!(consuming_vs_cloning_2, unwind = 6, |s| { run::<S, 2, 1>(s) });
 harness!(consuming_vs_cloning_3, unwind = 7, |s| { run::<S, 3, 2>(s) });
 
 // native-only sampled probes: 5 and 36 nodes (beyond the inline capacities 16 / 32), symbolic shapes
+pub fn consuming_vs_cloning_4<S: Src>(s: &mut S) { run::<S, 4, 3>(s) }
 pub fn consuming_vs_cloning_5<S: Src>(s: &mut S) { run::<S, 5, 4>(s) }
+pub fn consuming_vs_cloning_6<S: Src>(s: &mut S) { run::<S, 6, 5>(s) }
 pub fn consuming_vs_cloning_36<S: Src>(s: &mut S) { run::<S, 36, 35>(s) }
 
-registry!("c15", consuming_vs_cloning_5, consuming_vs_cloning_36, consuming_vs_cloning_2, consuming_vs_cloning_3, shape_xxx, shape_xyx, shape_yxyx, shape_xlyx);
+registry!("c15", consuming_vs_cloning_6, consuming_vs_cloning_4, consuming_vs_cloning_5, consuming_vs_cloning_36, consuming_vs_cloning_2, consuming_vs_cloning_3, shape_xxx, shape_xyx, shape_yxyx, shape_xlyx);
